@@ -182,8 +182,8 @@ def synth_jobs(seeds, n, label="synth"):
         rng = seeds.rng(label, i)
         text, meta = synth_library(rng, i)
         fname = IN_DIR + "/%s.yaml" % meta["lib"].lower()
-        argv = ["--path", IN_DIR, "--logdir", OUT, "--outdir", OUT,
-                "--option", "debug_testsuite=true", "--nowrite-version", fname]
+        argv = ["--path", IN_DIR, "--logdir", OUT, "--outdir", OUT] + (
+            ["--option", "debug_testsuite=true"] if rng.random() < 0.65 else []) + ["--nowrite-version", fname]
         meta.update(source=label, cwd_free=True, yaml=meta["lib"].lower())
         api = None
         if rng.random() < 0.3:
